@@ -219,8 +219,21 @@ static void to_xml(const Tree& t, const std::string* member, std::string& out) {
 		for (auto& e : t.a) to_xml(e, nullptr, out);
 		out += "</" + name + ">"; break; }
 	case Tree::Map: {
-		out += "<" + name + ">";
-		for (auto& kv : t.m) { const std::string key = kv.first.k == Tree::Int ? "k" + std::to_string(kv.first.i) : kv.first.s; to_xml(kv.second, &key, out); }
+		// members whose key starts with '@' are attributes of the element (value always text; null / containers: "")
+		out += "<" + name;
+		for (auto& kv : t.m) {
+			if (kv.first.k != Tree::Str || kv.first.s.empty() || kv.first.s[0] != '@') continue;
+			const Tree& v = kv.second;
+			std::string txt = v.k == Tree::Int ? std::to_string(v.i) : v.k == Tree::Bool ? (v.b ? "true" : "false") : v.k == Tree::Str ? v.s : std::string();
+			out += " " + kv.first.s.substr(1) + "=\"";
+			for (char c : txt) { if (c == '<') out += "&lt;"; else if (c == '&') out += "&amp;"; else if (c == '"') out += "&quot;"; else out.push_back(c); }
+			out += "\"";
+		}
+		out += ">";
+		for (auto& kv : t.m) {
+			if (kv.first.k == Tree::Str && !kv.first.s.empty() && kv.first.s[0] == '@') continue;
+			const std::string key = kv.first.k == Tree::Int ? "k" + std::to_string(kv.first.i) : kv.first.s; to_xml(kv.second, &key, out);
+		}
 		out += "</" + name + ">"; break; }
 	}
 }
@@ -641,6 +654,27 @@ struct Deep {
 };
 static std::string show(const Deep& v) { return "[" + show(v.list) + "," + show(v.k) + "]"; }
 
+// XML only: members serialized with AttributeValue (same lists as fields_attr / fields_attrlist in coq/ArchCodec.v)
+struct Attr {
+	int id = 0; std::string name; int x = 0; int ax = 0;
+	template <class A> void Serialize(A& ar) {
+		ar << AttributeValue("id", id, Required(), Range(1, 5));
+		ar << AttributeValue("name", name, MinSize(2), MaxSize(4));
+		ar << KeyValue("x", x, Required());
+		ar << AttributeValue("x", ax, Range(0, 9, "attr x"));
+	}
+};
+static std::string show(const Attr& v) { return "[" + show(v.id) + "," + show(v.name) + "," + show(v.x) + "," + show(v.ax) + "]"; }
+
+struct AttrList {
+	std::vector<Attr> list; int k = 0;
+	template <class A> void Serialize(A& ar) {
+		ar << KeyValue("list", list, MinSize(1));
+		ar << AttributeValue("k", k, Required());
+	}
+};
+static std::string show(const AttrList& v) { return "[" + show(v.list) + "," + show(v.k) + "]"; }
+
 struct VCase { std::string arch; unsigned max; std::string pol; Tree doc; };
 
 template <class T, bool Csv = false>
@@ -667,9 +701,37 @@ static std::string validate(const VCase& c) {
 	return "OK " + show(obj);
 }
 
+// classes that only an archive with attributes can load: XML, from memory or through std::istream
+template <class T>
+static std::string validate_xml(const VCase& c) {
+	if (c.arch != "xml" && c.arch != "xmls") throw Syntax{"class only loadable from xml"};
+	T obj{};
+	const std::string input = encode(c.arch, c.doc);
+	const SerializationOptions o = make_options(c.pol, c.max);
+	try {
+		if (c.arch == "xml") LoadObject<XmlArchive>(obj, input, o);
+		else { std::istringstream is(input); LoadObject<XmlArchive>(obj, is, o); }
+	}
+	catch (const ValidationException& ex) {
+		std::string r = "VAL ";
+		bool first = true;
+		for (const auto& kv : ex.GetValidationErrors()) {
+			if (!first) r.push_back(';');
+			first = false;
+			r += vh::fmt_hex(kv.first); r.push_back(':');
+			for (size_t i = 0; i < kv.second.size(); ++i) { if (i) r.push_back(','); r += vh::fmt_hex(kv.second[i]); }
+		}
+		r.push_back(' ');
+		r += c.max == 0 ? show(obj) : std::string("-");
+		return r;
+	}
+	return "OK " + show(obj);
+}
+
 static const std::vector<std::function<std::string(const VCase&)>> class_catalogue = {
 	validate<Flat>, validate<Multi>, validate<Text>, validate<Nested>, validate<InArray>,
 	validate<InMap>, validate<Dup>, validate<Many>, validate<std::vector<Flat>, true>, validate<Deep>,
+	validate_xml<Attr>, validate_xml<AttrList>,
 };
 
 int main() {
